@@ -27,6 +27,9 @@ pub enum OpKind {
     RUnlock,
     WLock,
     WUnlock,
+    TryLock,
+    TryRLock,
+    TryWLock,
 }
 
 /// Description of one synchronisation step.
@@ -272,9 +275,15 @@ impl<T> Mutex<T> {
     pub fn is_poisoned(&self) -> bool {
         self.inner.is_poisoned()
     }
-    /// Reported as a `Lock` step; the scheduler only grants it when the lock is free, so it succeeds.
+    /// Reported as a `TryLock` step that never blocks: `ok` tells whether the lock was acquired.
     pub fn try_lock(&self) -> Result<MutexGuard<'_, T>, PoisonError> {
-        self.lock()
+        let addr = self.addr();
+        step!(lock_op(OpKind::TryLock, addr), {
+            match self.inner.try_lock() {
+                Ok(g) => (Ok(MutexGuard { g: Some(g), addr }), 0, true),
+                Err(_) => (Err(PoisonError), 0, false),
+            }
+        })
     }
     pub fn lock(&self) -> Result<MutexGuard<'_, T>, PoisonError> {
         let addr = self.addr();
@@ -332,13 +341,25 @@ impl<T> RwLock<T> {
     pub fn into_inner(self) -> T {
         self.inner.into_inner()
     }
-    /// Reported as an `RLock` step (granted only when no writer holds the lock).
+    /// Reported as a `TryRLock` step that never blocks: `ok` tells whether the lock was acquired.
     pub fn try_read(&self) -> Option<RwLockReadGuard<'_, T>> {
-        Some(self.read())
+        let addr = self.addr();
+        step!(lock_op(OpKind::TryRLock, addr), {
+            match self.inner.try_read() {
+                Some(g) => (Some(RwLockReadGuard { g: Some(g), addr }), 0, true),
+                None => (None, 0, false),
+            }
+        })
     }
-    /// Reported as a `WLock` step (granted only when the lock is free).
+    /// Reported as a `TryWLock` step that never blocks: `ok` tells whether the lock was acquired.
     pub fn try_write(&self) -> Option<RwLockWriteGuard<'_, T>> {
-        Some(self.write())
+        let addr = self.addr();
+        step!(lock_op(OpKind::TryWLock, addr), {
+            match self.inner.try_write() {
+                Some(g) => (Some(RwLockWriteGuard { g: Some(g), addr }), 0, true),
+                None => (None, 0, false),
+            }
+        })
     }
     pub fn read(&self) -> RwLockReadGuard<'_, T> {
         let addr = self.addr();
